@@ -3,19 +3,19 @@
   import_seeded.py <ID> <n> "<needs>"      (reads /tmp/mut/<ID>-out/{mut<n>.diff,demo<n>.rs,confirm<n>.json,README.md})"""
 import json, os, shutil, sys
 ID, N, needs = sys.argv[1], sys.argv[2], sys.argv[3]
-src = f"/tmp/mut/{ID}-out"
+src = f"{os.environ.get('MUTBASE', '/tmp/mut')}/{ID}-out"
 c = json.load(open(f"{src}/confirm{N}.json"))
 ok = c["applies"] and c["build_hooks_rc"] == 0 and c["suite_failures"] == 0 and c["suite_tests_passed"] >= 283 and c["demo_fails_with_change"] and c["demo_passes_without_change"]
 if not ok:
     sys.exit(f"not confirmed: {c}")
-dst = os.path.join(os.path.dirname(os.path.dirname(os.path.abspath(__file__))), "seeded", f"{ID}-m{N}")
+dst = os.path.join(os.path.dirname(os.path.dirname(os.path.abspath(__file__))), "seeded", f"{ID}-{os.environ.get('NAMEPFX', '')}m{N}")
 os.makedirs(dst, exist_ok=True)
 shutil.copy(f"{src}/mut{N}.diff", f"{dst}/patch.diff")
 shutil.copy(f"{src}/demo{N}.rs", f"{dst}/demo.rs")
 if os.path.exists(f"{src}/README.md"):
     shutil.copy(f"{src}/README.md", f"{dst}/AGENT_README.md")
 json.dump({"property": ID, "needs_to_manifest": needs,
-           "author": "sub-agent given only the property text and a private worktree of /repo",
+           "author": "sub-agent given only the property text and a private worktree of /repo" + (" (second round: asked for changes away from the obvious anchor)" if os.environ.get("NAMEPFX") else ""),
            "confirmed_by": "tools-side re-run in the scratch worktree (/tmp/mut/confirm.sh): git apply; cargo build --offline --features verif_hooks; cargo test --offline --workspace (existing suite); cargo test --test demo with and without the change",
            "confirmation": c}, open(f"{dst}/meta.json", "w"), indent=1)
 print("imported", dst)
